@@ -245,6 +245,14 @@ func RaceWith(solvers []solverSpec, script string, dir, name string, timeout tim
 			if i := strings.IndexByte(txt, '\n'); i >= 0 {
 				first = txt[:i]
 			}
+			// solvers may print warnings before the verdict
+			for _, ln := range strings.Split(txt, "\n") {
+				ln = strings.TrimSpace(ln)
+				if ln == "unsat" || ln == "sat" || ln == "unknown" || ln == "timeout" {
+					first = ln
+					break
+				}
+			}
 			ans := "error"
 			switch {
 			case first == "unsat" || first == "sat" || first == "unknown":
